@@ -176,7 +176,9 @@ pub fn simulate(spec: &NetSpec, faults: &[(u64, Fault)], choices: &mut Choices, 
     for n in specs.iter_mut() {
         for p in n.ports.iter_mut() {
             if p.rng_cycle.is_empty() {
-                p.rng = [0.5, 0.05, 0.95][choices.choose(3)];
+                // (a port with the minimum announceReceiptTimeout of 2 takes the low value by
+                // default: the tightest timers of its configuration)
+                p.rng = if p.receipt_timeout == 2 { [0.05, 0.5, 0.95][choices.choose(3)] } else { [0.5, 0.05, 0.95][choices.choose(3)] };
             }
         }
     }
